@@ -69,7 +69,7 @@ func genC19(r *rand.Rand, tier string, env *Env) []Case {
 		cases = append(cases, Case{Kind: "fixed", Ops: []Op{{"gen.run", args}, {"pass.cleanUp", [][]byte{[]byte(w)}}}, Oracles: []Op{{"c19.nocrash", args}, {"c19.cli", args}}})
 	}
 	for i := 0; i < n; i++ {
-		p := genProgram(r, progOpts{maxDepth: 2, maxItems: 5, includes: true, defs: true, cmdline: true, exotic: 0.5, malformed: 0.2, flagsPfxSf: true})
+		p := genProgram(r, progOpts{maxDepth: 2, maxItems: 5, includes: true, defs: true, cmdline: true, exotic: 0.5, malformed: 0.2, flagsPfxSf: true, inline: []float64{0, 0.3}[i%2]})
 		cases = append(cases, Case{Kind: "program", Ops: []Op{p.parseOp(), p.genOp()}, Oracles: []Op{{"c19.nocrash", p.genOp().Args}}})
 	}
 	for i := 0; i < nFuzz; i++ {
@@ -98,7 +98,7 @@ func init() {
 		ID: "C19", LeanMods: []string{"CrsProps.C19"},
 		Corr: "K2 (parser.Parse), K3 (clean-up passes on arbitrary text: same fault class in model and code), K5 (Operator.Run end to end, real rassemble.Join answers fed to the model; every Join result monitored for the EngineShape assumption)",
 		Rule: "token-level fuzz: 1..40 (quick) / 1..600 (thorough) tokens from directive fragments, regex metacharacters, escapes (incl. escaped parentheses before `?i:`), braces, quotes, control and non-ASCII bytes, on stdin and in an include file; plus programs from the tree grammar with 20% structural faults; non-trivial = text of at least two tokens; distinct by bytes",
-		Gen:  genC19,
+		Gen:  genC19, Escalate: escalatePassText("c19.nocrash", "c19.cli"),
 		Assume: []string{"EngineShape (hypothesis of C19_generate_no_runtime_fault): rassemble.Join prints balanced text and answers every query — monitored on every Join result of the run",
 			"termination: the model is total; fuel parameters (include depth 40, loop bounds 2·len+2) are not reached on generated inputs (a cyclic include ends with a diagnostic in the code as well: file descriptors run out)"},
 	}
